@@ -43,14 +43,31 @@ BadPB == {"neg", "bad", "multi"}
 Unproc == {"REF", "GOAWAY"}
 HasHdr(c) == c.act \in {"OK", "HF", "MF"}
 
-\* backoff settings (index -> initial ns, max ns, multiplier num/den); all dyadic (R2)
-BoffInit(b) == IF b = 1 THEN 10000000 ELSE 8000000
-BoffMax(b)  == IF b = 1 THEN 50000000 ELSE 20000000
-BoffNum(b)  == IF b = 1 THEN 2 ELSE 3
-BoffDen(b)  == IF b = 1 THEN 1 ELSE 2
+\* backoff settings (index -> initial ns, max ns, multiplier = product of the factors / den); all exact in float64 (R2)
+\*   1: 10 ms, x2, max 50 ms     2: 8 ms, x1.5, max 20 ms     3: 10 ms, x10^12, max 20 ms (parser-valid, huge)
+BoffInit(b) == CASE b = 1 -> 10000000 [] b = 2 -> 8000000 [] OTHER -> 10000000
+BoffMax(b)  == CASE b = 1 -> 50000000 [] OTHER -> 20000000
+BoffFactors(b) == CASE b = 1 -> <<2>> [] b = 2 -> <<3>> [] OTHER -> <<1000000, 1000000>>
+BoffDen(b)  == IF b = 2 THEN 2 ELSE 1
 PbNs(pb) == IF pb = "p7" THEN 7000000 ELSE 0
-RECURSIVE Pow(_, _)
-Pow(x, k) == IF k = 0 THEN 1 ELSE x * Pow(x, k - 1)
+\* n * (product of fs) >= bound, without ever computing a product that reaches bound (32-bit integers)
+RECURSIVE GEProd(_, _, _)
+GEProd(n, fs, bound) == IF n >= bound THEN TRUE
+                        ELSE IF fs = <<>> THEN FALSE
+                        ELSE IF Head(fs) >= (bound + n - 1) \div n THEN TRUE
+                        ELSE GEProd(n * Head(fs), Tail(fs), bound)
+RECURSIVE ProdSeq(_)
+ProdSeq(fs) == IF fs = <<>> THEN 1 ELSE Head(fs) * ProdSeq(Tail(fs))
+\* initialBackoff x multiplier^k as an exact fraction <<n, d>>, or BCap as soon as it reaches maxBackoff (multipliers
+\* are >= 1, so once capped always capped); the huge product is never computed
+BCap == <<0, 0>>
+RECURSIVE BoffBase(_, _)
+BoffBase(b, k) ==
+  IF k = 0 THEN (IF BoffInit(b) >= BoffMax(b) THEN BCap ELSE <<BoffInit(b), 1>>)
+  ELSE LET p == BoffBase(b, k - 1) IN
+       IF p = BCap THEN BCap
+       ELSE IF GEProd(p[1], BoffFactors(b), BoffMax(b) * p[2] * BoffDen(b)) THEN BCap
+       ELSE <<p[1] * ProdSeq(BoffFactors(b)), p[2] * BoffDen(b)>>
 
 VARIABLES cfg,          \* [maxAtt, cap, codes, bufLimit, thrMax, boff]  (constant during a behaviour)
           app,          \* Level A: what the application produced so far (message ids, CLOSE)
